@@ -251,14 +251,23 @@ func main() {
 
 		// ------------------------------------------------ configured work bound
 		c.Part("work-bound")
-		c.Bound("passphrase files with work factors 1..14 decrypted (right and wrong passphrase) by identities whose maximum was lowered to 1..14: no scrypt call may exceed 2^max")
+		c.Bound("passphrase files with work factors 1..14 decrypted (right and wrong passphrase) by identities whose maximum was lowered to 1..14, in ascending and then descending order of the maximum (a strict identity after a lenient one): no scrypt call may exceed 2^max")
 		if c.Shard == 0 {
 			for w := 1; w <= 14; w++ {
 				f, err := lab.Encrypt([]age.Recipient{keys.Scrypt("pw", w).Rcpt}, []byte("x"), false, nil)
 				if err != nil {
 					panic(err)
 				}
+				// maxima in ascending and then in descending order: a strict identity is also used after a lenient one
+				// has accepted the same file in the same process
+				var order []int
 				for m := 1; m <= 14; m++ {
+					order = append(order, m)
+				}
+				for m := 14; m >= 1; m-- {
+					order = append(order, m)
+				}
+				for _, m := range order {
 					for _, pass := range []string{"pw", "other"} {
 						idn, _ := age.NewScryptIdentity(pass)
 						idn.SetMaxWorkFactor(m)
